@@ -187,12 +187,14 @@ pub fn ladder_text(shape: &str, d: usize) -> String {
 
 /// Executed in the child: compile, search, drop.  Returns normally whatever
 /// the outcome (Ok or Err are both fine); a crash is seen by the parent.
-pub fn child_main(shape: &str, depth: usize) {
+pub const LADDER_DOCS: &[&str] = &["{\"a\":[{\"a\":[{\"a\":[1]}]}]}", "{}", "{\"a\":false}", "[[[[[[[[1]]]]]]]]"];
+
+pub fn child_main(shape: &str, depth: usize, doc: usize) {
     let text = ladder_text(shape, depth);
     match jmespath::compile(&text) {
         Err(_) => println!("child: rejected"),
         Ok(e) => {
-            let v = jmespath::Variable::from_json("{\"a\":[{\"a\":[{\"a\":[1]}]}]}").unwrap();
+            let v = jmespath::Variable::from_json(LADDER_DOCS[doc % LADDER_DOCS.len()]).unwrap();
             match e.search(v) {
                 Ok(_) => println!("child: searched"),
                 Err(_) => println!("child: search error"),
@@ -208,10 +210,10 @@ pub enum ChildOutcome {
     Timeout,
 }
 
-pub fn run_child(shape: &str, depth: usize, limit: Duration) -> ChildOutcome {
+pub fn run_child(shape: &str, depth: usize, doc: usize, limit: Duration) -> ChildOutcome {
     let exe = std::env::current_exe().expect("current exe");
     let mut child = Command::new(exe)
-        .args(["c05-child", shape, &depth.to_string()])
+        .args(["c05-child", shape, &depth.to_string(), &doc.to_string()])
         .stdout(Stdio::piped())
         .stderr(Stdio::null())
         .spawn()
@@ -244,14 +246,16 @@ pub fn run_child(shape: &str, depth: usize, limit: Duration) -> ChildOutcome {
     }
 }
 
-fn ladder_case(shape: &str, depth: usize, st: &mut Stats) -> CaseResult {
+fn ladder_case(shape: &str, depth: usize, doc: usize, st: &mut Stats) -> CaseResult {
     st.eval();
-    let case = json!({"shape": shape, "depth": depth, "expression_prefix": ladder_text(shape, 3)});
-    match run_child(shape, depth, Duration::from_secs(60)) {
+    let text_len = ladder_text(shape, depth).len();
+    let case = json!({"shape": shape, "depth": depth, "doc": doc, "document": LADDER_DOCS[doc % LADDER_DOCS.len()], "expression_prefix": ladder_text(shape, 3), "expression_bytes": text_len});
+    let limit = Duration::from_secs(if text_len <= 4096 { 20 } else { 60 });
+    match run_child(shape, depth, doc, limit) {
         ChildOutcome::Fine(how) => {
             st.class(&format!("ladder:{}", how.replace("child: ", "")));
-            if depth >= 64 && st.nontrivial(&format!("{}:{}", shape, depth)) {
-                st.sample(|| json!({"shape": shape, "depth": depth, "outcome": how}));
+            if depth >= 64 && st.nontrivial(&format!("{}:{}:{}", shape, depth, doc)) {
+                st.sample(|| json!({"shape": shape, "depth": depth, "doc": doc, "outcome": how}));
             }
             Ok(())
         }
@@ -259,7 +263,22 @@ fn ladder_case(shape: &str, depth: usize, st: &mut Stats) -> CaseResult {
             let sig = if depth >= 256 { "stack-overflow-depth>=256" } else { "crash-below-depth-256" };
             Err(Failure::new("ladder", sig, format!("child process died ({}) on nesting shape '{}' at depth {}", status, shape, depth), case))
         }
-        ChildOutcome::Timeout => Err(Failure::new("ladder", "harness-timeout", format!("child exceeded 60 s on shape '{}' depth {}", shape, depth), case)),
+        ChildOutcome::Timeout => {
+            // an expression of at most 4 KiB that normally takes microseconds: confirm twice in
+            // fresh processes with a longer limit before calling it a hang
+            if text_len <= 4096 {
+                let again = (0..2).all(|_| matches!(run_child(shape, depth, doc, Duration::from_secs(60)), ChildOutcome::Timeout));
+                if again {
+                    return Err(Failure::new(
+                        "ladder",
+                        "hang",
+                        format!("compile+search of a {}-byte expression (shape '{}' x {}) did not finish within 60 s, three times in fresh processes", text_len, shape, depth),
+                        case,
+                    ));
+                }
+            }
+            Err(Failure::new("ladder", "harness-timeout", format!("child exceeded its time limit on shape '{}' depth {}", shape, depth), case))
+        }
     }
 }
 
@@ -268,7 +287,15 @@ fn ladder(env: &Env, st: &mut Stats) -> Vec<Failure> {
     let mut fails = vec![];
     let results = std::sync::Mutex::new(vec![]);
     // run the children on a few worker threads
-    let jobs: Vec<(&str, usize)> = SHAPES.iter().flat_map(|s| depths.iter().map(move |d| (*s, *d))).collect();
+    let mut jobs: Vec<(&str, usize, usize)> = SHAPES.iter().flat_map(|s| depths.iter().map(move |d| (*s, *d, 0usize))).collect();
+    // the same shapes on documents where the operands are missing / falsy / arrays (small depths only)
+    for s in SHAPES {
+        for d in [8usize, 24, 40, 64, 200] {
+            for doc in 1..LADDER_DOCS.len() {
+                jobs.push((*s, d, doc));
+            }
+        }
+    }
     let next = std::sync::atomic::AtomicUsize::new(0);
     std::thread::scope(|sc| {
         for _ in 0..8 {
@@ -278,7 +305,7 @@ fn ladder(env: &Env, st: &mut Stats) -> Vec<Failure> {
                     break;
                 }
                 let mut local = Stats::new();
-                let r = ladder_case(jobs[i].0, jobs[i].1, &mut local);
+                let r = ladder_case(jobs[i].0, jobs[i].1, jobs[i].2, &mut local);
                 results.lock().unwrap().push((i, local, r));
             });
         }
@@ -296,7 +323,7 @@ fn ladder(env: &Env, st: &mut Stats) -> Vec<Failure> {
 
 fn replay_ladder(case: &Value, _env: &Env) -> CaseResult {
     let mut st = Stats::new();
-    ladder_case(case["shape"].as_str().unwrap_or("not"), case["depth"].as_u64().unwrap_or(16) as usize, &mut st)
+    ladder_case(case["shape"].as_str().unwrap_or("not"), case["depth"].as_u64().unwrap_or(16) as usize, case["doc"].as_u64().unwrap_or(0) as usize, &mut st)
 }
 
 fn fixed_cases(_env: &Env, st: &mut Stats) -> Vec<Failure> {
